@@ -490,10 +490,15 @@ func (r *Runner) exec(op map[string]any) (string, error) {
 		tick()
 		return res(err)
 	case "GraphVacuum":
+		tick()
+		e.RunGraphVacuum()
+		tick()
+		return "ok", nil
+	case "GraphVacuumAt":
 		c, _ := op["cutoff"].(float64)
 		cut, ok := r.clockReal[int(c)]
 		if !ok {
-			return "", fmt.Errorf("GraphVacuum: no real time recorded for model clock %v", c)
+			return "", fmt.Errorf("GraphVacuumAt: no real time recorded for model clock %v", c)
 		}
 		e.DB.VacuumGraph(cut)
 		return "ok", nil
